@@ -122,17 +122,17 @@ def allowedBare : List Allowed := [
     "reschan is created with capacity 1 in zkLookup and receives exactly this one send"⟩,
   ⟨⟨"gohbase", "client.Close", "do", "c.closeOnce"⟩, 1,
     "sync.Once: the body closes channels and connections and waits for nothing (C19 close_twice_noop)"⟩,
-  ⟨⟨"region", "client.QueueBatch", "send", "c.ResultChan()"⟩, 1,
+  ⟨⟨"region", "client.QueueBatch", "send", "call.ResultChan()"⟩, 1,
     "capacity-1 result channel, each call completed at most once: C03 at_most_once"⟩,
   ⟨⟨"region", "client.fail", "do", "c.failOnce"⟩, 1,
     "sync.Once: the body closes c.done and the net.Conn and waits for nothing"⟩,
   ⟨⟨"region", "client.processRPCs", "recv", "timer.C"⟩, 1,
     "drain after a failed timer.Stop(): the timer has fired, so the value is (or is about to be) in the capacity-1 channel; writer goroutine only"⟩,
-  ⟨⟨"region", "returnResult", "send", "c.ResultChan()"⟩, 1,
+  ⟨⟨"region", "returnResult", "send", "call.ResultChan()"⟩, 1,
     "capacity-1 result channel, each call completed at most once: C03 at_most_once"⟩,
   ⟨⟨"region", "client.Dial", "do", "c.dialOnce"⟩, 1,
     "sync.Once: the body's dial and hello write are bounded by the dial context's deadline (establisher goroutine, not a caller)"⟩,
-  ⟨⟨"region", "multi.returnResults", "send", "c.ResultChan()"⟩, 5,
+  ⟨⟨"region", "multi.returnResults", "send", "call.ResultChan()"⟩, 5,
     "capacity-1 result channel, each call completed at most once: C03 at_most_once (and the fix validating multi responses)"⟩]
 
 def justified (b : Bare) : Bool :=
